@@ -5,6 +5,8 @@ import FitProofs.Crc
 import FitProofs.Codec
 import FitProps.C14
 import FitProofs.EncodeItems
+import FitProofs.EncodeFile
+import FitProofs.DecodeAccepts
 /-!
   C05 — Encode emits a well-formed, self-describing FIT stream.
 -/
@@ -142,8 +144,9 @@ theorem encode_one_self_describing (P : Profile) (hwf : ProfileWF P = true) (arc
     (h : encodeOne P arch m = .ok bs) :
     ∃ (fs : List PField) (parts : List Bytes),
       bs = serialize [.defn (defOf arch m.num fs) false, .data 0 parts []] ∧
-      FieldsFit (defOf arch m.num fs).fields parts ∧ DefnWF (defOf arch m.num fs) false :=
-  encodeOne_items P hwf arch m bs h
+      FieldsFit (defOf arch m.num fs).fields parts ∧ DefnWF (defOf arch m.num fs) false := by
+  obtain ⟨fs, parts, h1, h2, h3, _⟩ := encodeOne_items P hwf arch m bs h
+  exact ⟨fs, parts, h1, h2, h3⟩
 
 /-- … and therefore the decoder's record loop, wherever it meets these bytes, reads them back as
     exactly that definition and that data record (Framing). -/
@@ -180,6 +183,53 @@ theorem encode_group_self_describing_partial (P : Profile) (hwf : ProfileWF P = 
       (d.fields.length < 256 → ∀ st : DecSt, 0 < st.defs.length →
         ItemsFit P st (.defn d false :: partss.map fun parts => Item.data 0 parts [])) :=
   encodeGroup_self_describing P hwf arch ms bs hne h
+
+/-- **Message groups, in full**: the shared definition never has more fields than the message
+    struct (its fields come out strictly ordered by struct index), so the count fits its byte and the
+    group is a definition record followed by one fitting data record per message — from any state of
+    the decoder's definition table. -/
+theorem encode_group_self_describing (P : Profile) (hwf : ProfileWF P = true) (arch : Endian) (ms : List Msg)
+    (bs : Bytes) (hne : ms ≠ []) (h : encodeGroup P arch ms = .ok bs) :
+    ∃ (d : DefMsg) (partss : List (List Bytes)),
+      bs = serialize (.defn d false :: partss.map fun parts => Item.data 0 parts []) ∧
+      partss.length = ms.length ∧
+      ∀ defs : List (Option DefMsg), 0 < defs.length →
+        ItemsFitD P defs (.defn d false :: partss.map fun parts => Item.data 0 parts []) :=
+  encodeGroup_fitsD P hwf arch ms bs hne h
+
+/-- **The definitions `Encode` writes are accepted by `Decode`'s validation.** -/
+theorem encoder_definitions_validate (P : Profile) (g : Nat) (pm : PMsg) (pf : PField) (h : fieldWF pm pf = true)
+    (hgf : P.known g = true → P.getField g pf.num = some pf) :
+    validateFieldDef P g (fdOf pf) = true :=
+  validate_fdOf P g pm pf (fieldWF_facts pm pf h) hgf
+
+/-- **What `Encode` writes is a well-formed, self-describing FIT file** (whole File, every container
+    field): a 14-byte header with its CRC, records that are the serialisation of items in which
+    every data record fits the definition live for its local type — starting with the file_id
+    definition and data record — and the file CRC. With `whole_file_framing` (C02) this is exactly
+    the input shape on which `Decode` is shown to do what the record machine does. -/
+theorem encode_wellformed (P : Profile) (hwf : ProfileWF P = true) (arch : Endian) (f f' : FileSt) (bs : Bytes)
+    (h : encode P arch f = .ok bs f') (hs : f.hdr.size = headerSizeCRC) (ht : f.hdr.dtype = fitTag)
+    (hsmall : bs.length < 4294967296) :
+    ∃ (d0 : DefMsg) (parts0 : List Bytes) (rest : List Item),
+      d0.global = f.fileId.num ∧ d0.localT = 0 ∧
+      bs = frameBytes f.hdr.proto f.hdr.profile (serialize (.defn d0 false :: .data 0 parts0 [] :: rest)) ∧
+      ItemsFitD P (List.replicate 16 none) (.defn d0 false :: .data 0 parts0 [] :: rest) :=
+  Fit.encode_wellformed P hwf arch f f' bs h hs ht hsmall
+
+/-- **`Decode` accepts what `Encode` wrote.** On a well-formed profile, for every File that `Encode`
+    accepts and that lies in `FileInDomain` — a 14-byte ".FIT" header, a file_id message whose valid
+    fields round-trip (the kinds covered in C06) and whose other fields hold the constructor's
+    invalid values, and messages of known types only — the bytes written, followed by anything and
+    read with either way of ending, decode successfully: header and header CRC, file_id prelude,
+    `init` with the same file type, every definition validated, every data record parsed and routed,
+    file CRC. (By C10 the same holds for the buffered run under any read schedule, and exactly the
+    written bytes are consumed.) -/
+theorem decode_accepts_encode (P : Profile) (hwf : ProfileWF P = true) (arch : Endian) (f f' : FileSt) (bs : Bytes)
+    (h : encode P arch f = .ok bs f') (hdom : FileInDomain P arch f) (hsmall : bs.length < 4294967296)
+    (o : Opts) (g : Globals) (tail : Bytes) (stop : Stop) :
+    (decodeSpec P o .full g (bs ++ tail) stop).1.success :=
+  Fit.decode_accepts_encode P hwf arch f f' bs h hdom hsmall o g tail stop
 
 /-- the hypotheses are satisfiable: the regenerated profile is well-formed and encodes a file_id
     message (kernel-evaluated) -/
